@@ -88,6 +88,7 @@ type casePlan struct {
 	CCoalesce  bool        `json:"client_coalesce"`
 	Dir        int         `json:"dir"`
 	Op         opSpec      `json:"op"`
+	Later      int         `json:"later_handshakes"` // further HandleStream calls on the same server before a fallback payload is compared (0 = 1)
 
 	recorded *clientSide // exhaustive mode, request direction: replay this recorded client session instead of dialling
 }
@@ -771,6 +772,28 @@ func runCase(p *casePlan) (r result) {
 			if p.Class.NIPSK > 0 && fb >= w.ServerFixedEnd()-sstcp.FixedReqLen-sstcp.TagSize && fb < w.ServerFixedEnd() {
 				// salt and identity header are genuine (the user lookup succeeds), the sealed fixed-length header is not
 				r.label("fallback-after-successful-user-lookup")
+			}
+			// The fallback destination consumes Payload later, while the server keeps serving other connections:
+			// run further handshakes (genuine ones of other clients and garbage of about the same length) on the
+			// same server before looking at the live Payload slice.
+			later := 1 + (max(p.Later, 1)-1)%3
+			for i := 0; i < later; i++ {
+				lk := sstcp.NewLink()
+				var frames [][]byte
+				if (int(p.Seed)+i+p.Later)%3 != 0 {
+					if o, err := dialClient(w, p, uint64(0x1A7E0+i)); err == nil {
+						lk, frames = o.link, nonEmptyRelayed(w, o.frames, func() []byte { b, _ := w.Relay(sstcp.Join(o.frames)); return b }())
+					}
+				}
+				if frames == nil {
+					frames = [][]byte{sstcp.Bytes(max(len(tRelayed), w.ServerFixedEnd()+40), p.Seed^uint64(0x6A7BA6E+i))}
+				}
+				_ = presentToServer(w, server, lk, frames, &casePlan{Class: p.Class, SBuf: 4096})
+			}
+			r.label("fallback-payload-compared-after-later-handshakes")
+			if live := ss.req.Payload; len(live) == len(ss.payload) && !bytes.Equal(live, ss.payload) {
+				r.fail("fallback-payload-changed-by-later-connections", "the fallback request's Payload (%d bytes) was intact when HandleStream returned but differs at offset %d after %d further connections were handled by the same server",
+					len(live), firstDiff(live, ss.payload), later)
 			}
 			if ss.delivered > len(tRelayed) || len(ss.payload) != ss.delivered || !bytes.Equal(ss.payload, tRelayed[:ss.delivered]) {
 				r.fail("fallback-payload-differs", "fallback payload (%d bytes) is not byte-for-byte what the transport delivered (%d bytes; first difference at %d)",
